@@ -1,5 +1,8 @@
 # -*- coding: utf-8 -*-
-"""C19 - cell labels and row/column indices correspond one-to-one (hotxlfp/helper/cell.py)"""
+"""C19 - cell labels and row/column indices correspond one-to-one (hotxlfp/helper/cell.py)
+
+case kinds: col, idx, row, rowlabel, label (with `pre`: after formulas on the shared parser), formula (oracle only; with key
+`wrap` the formula is the one label s put into the pattern wrap - white space around it or parentheses)"""
 import itertools
 import string
 
@@ -27,7 +30,12 @@ RULE = ('col: all column labels of length<=2 in upper case + the 26 lower-case l
         'ASCII letters (30 % also as a range) - no event may be raised; 150*scale ASCII one-label formulas and 250*scale sums of '
         '2..3 references to one address in different $ patterns and cases - exactly one cell event per reference with the '
         'upper-cased label, its recomposition and its $ flags (the cell listener reads the parts through the tuple protocol of '
-        'Cell, row, col = cell, and checks that they are the very objects cell.row / cell.col / cell[0] / cell[1] give); 120*scale '
+        'Cell, row, col = cell, and checks that they are the very objects cell.row / cell.col / cell[0] / cell[1] give); 200*scale '
+        'formulas with key wrap + 6 fixed: ONE label (1..3 ASCII letters of either case, row 1..4999, the four $ patterns) with '
+        'white space around it or in redundant parentheses, the pattern seeded from a list of 10 (label LF, listed twice, label CR LF, blank label, '
+        'label blank, LF label, label LF LF, tab label tab, (label), ( label )); fixed: A1 and $b$2 each followed by LF, by CR LF and in '
+        'parentheses - the events observed must be exactly the one cell event of the label (upper-cased label, its recomposition, '
+        'its $ flags; no second event, no range event); 120*scale '
         'formulas + 8 fixed (LOG10, log10, Atan2, $LOG$10, ATAN$2, LOG10+A1, SUM(LOG9:LOG10), ATAN2:ATAN2) whose labels spell '
         'function names read from the live registry (45 %: a label-shaped name such as LOG10 / ATAN2, 30 % of these with the row '
         'one off; else an alphabetic ASCII name of at most 4 letters + a row below 300; 30 % in one of the four $ patterns, 40 % in lower case or '
@@ -57,6 +65,9 @@ ASSUMPTIONS = ['column_label_to_index is compared on ASCII input only (str.upper
                'a formula that is a label (or a sum of labels) raises one callCellValue event per reference; a string whose letters '
                'part is not ASCII letters is no cell reference even if str.upper() would make it one; a label that spells the '
                'name of a registered function (LOG10, ATAN2, SUM5) and is written without parentheses is a cell like any other',
+               'white space before or after a label - blanks, tabs, LF, CR LF, as a formula read as a line of a file carries - and '
+               'redundant parentheses around it are not part of the label: the formula is that one cell reference and raises its '
+               'one callCellValue event with the label decomposed as when written alone',
                'a formula a:b or SUM(a:b) over two labels raises exactly one callRangeValue event and no callCellValue event; the '
                'corners handed to the listener are Cells whose tuple protocol (row, col = cell) gives the parts their attributes '
                'give; the first corner carries the smaller row part and the smaller column part (on a tie the one written first), '
